@@ -72,6 +72,55 @@ def run(chk):
         tf = work / ("e%d.utb" % i)
         tf.write_text(text)
         tables.append(("unicode.dis," + str(tf), al))
+    # tables that map each character to exactly one cell although rules are at work: single-cell definitions plus swap
+    # classes applied one for one (quantified, so that a run is replaced by one rule application) in the corrections pass
+    # and in pass2 - for these the property asks for identity maps and an unchanged cursor
+    onecell = []
+    for i in range(8 if quick else 60):
+        r = rng.fork(("onecell", i))
+        letters = "abcdef"[: r.range(3, 6)]
+        cells = r.sample(range(1, 64), len(letters))
+        dots = lambda v: "".join(str(b + 1) for b in range(6) if v >> b & 1)
+        lines_ = ["space \\s 0"] + ["lowercase %s %s" % (c, dots(v)) for c, v in zip(letters, cells)]
+        k = r.range(2, len(letters))
+        src = "".join(r.sample(list(letters), k))
+        lines_.append("swapcc sw %s %s" % (src, "".join(r.choice(letters) for _ in range(k))))
+        lines_.append("noback correct %s %%sw" % r.choice(["[%sw.]", "[%sw1-3]", "[%sw2-5]", "[%sw]", '"%s"[%%sw.]' % r.choice(letters)]))
+        if r.chance(0.6):
+            dsrc = r.sample(cells, r.range(2, len(cells)))
+            lines_.append("swapdd sd %s %s" % (",".join(dots(v) for v in dsrc), ",".join(dots(r.choice(cells)) for _ in dsrc)))
+            lines_.append("noback pass2 %s %%sd" % r.choice(["[%sd.]", "[%sd1-4]", "[%sd]"]))
+        tf = work / ("o%d.utb" % i)
+        tf.write_text("\n".join(lines_) + "\n")
+        onecell.append((str(tf), [ord(c) for c in letters] * 3 + [32]))
+    for tl, alphabet in onecell:
+        r = rng.fork(("onecellcases", tl))
+        olines, ometa = [], []
+        for _ in range(12 if quick else 40):
+            inp = [r.choice(alphabet) for _ in range(r.range(1, 12))]
+            for cur in [-2] + list(range(len(inp))):
+                for pres in (12, 0):
+                    p_ = pres | (16 if cur >= 0 else 0)
+                    if p_ == 0:
+                        continue
+                    olines.append(trans.case_line("T", r.choice([0, 4]) if cur < 0 else 4, inp, 3 * len(inp) + 8, cursor=cur, presence=p_))
+                    ometa.append((inp, cur, p_))
+        for (inp, cur, p_), ln, res in zip(ometa, olines, trans.run_cases(exe, "unicode.dis," + tl, olines, exact=1, env=env, timeout=400)):
+            chk.count((tl, ln), nontrivial=len(inp) > 2)
+            chk.tally("one_cell_per_character_tables")
+            bad = safety.classify(res)
+            if bad:
+                chk.violation(bad[0], "%s on a one-cell-per-character table: %s" % (bad[1], ln[:120]), dict(table_list=tl, case_line=ln, table_text=open(tl).read()))
+                continue
+            if res.ret != 1 or res.inlen != len(inp) or res.outlen != len(inp):
+                continue        # (a rule changed the length: not one cell per character for this input)
+            ident = list(range(len(inp)))
+            if (p_ & 8 and res.inputPos[:res.outlen] != ident) or (p_ & 4 and res.outputPos[:res.inlen] != ident) or (cur >= 0 and res.cursor != cur):
+                chk.violation("clause:identity", "one cell per character, but the maps are not the identity / the cursor moved: inputPos=%s outputPos=%s cursor %s -> %s"
+                              % (res.inputPos[:res.outlen], res.outputPos[:res.inlen], cur, res.cursor),
+                              dict(table_list=tl, case_line=ln, impl=res.raw, table_text=open(tl).read()))
+            else:
+                chk.cov["traces_validated_against_impl"] += 1
     hstats = dict(neg=0, over=0, nonmono=0)
     for tl, alphabet in tables:
         r = rng.fork(("cases", tl))
